@@ -42,7 +42,7 @@ def entry_point_cases(c, rng, quick):
             nPS = min(N, rng.choice([1, N, 2, 3]))
             nIS = min(N, rng.choice([1, N, 2, 3]))
             T = rng.choice([0, 1, 1, 5, 12]) if not big else rng.choice([1, 2, 3])
-            init = 1 if name in ('GR4J', 'Lag') else rng.choice([0, 1])
+            init = rng.choice([0, 1])      # 0 = hot start from the caller's state buffer, also for the variable-width models
             pv = []
             for (pn, d, lo, hi, nd) in params:
                 for _s in range(nPS):
@@ -74,6 +74,16 @@ def entry_point_cases(c, rng, quick):
             padt = rng.choice([0, 0, 2])
             inputs = [rng.choice([0.0, rng.random() * 10, rng.random() * 50]) for _ in range(nIS * nin * T)]
             states = [0.0] * (N * nS)
+            if init == 0 and name == 'Lag':
+                states = [float(rng.randint(0, 9)) + rng.choice([0.0, 0.25]) for _ in range(N * nS)]     # water in transit
+            if init == 0 and name == 'GR4J':
+                import math
+                n1, n2 = math.ceil(pmat[3 * nPS]), math.ceil(2 * pmat[3 * nPS])
+                states = []
+                for _c in range(N):
+                    states += [rng.random() * 50, rng.random() * 20, float(n1), float(n2)] + [rng.random() * 3 for _ in range(n1 + n2)]
+            if init == 0 and name not in ('GR4J', 'Lag') and nS and rng.random() < 0.5:
+                states = [rng.random() * 5 for _ in range(N * nS)]     # a hot start from non-zero stores
             hdr = [name, nIS, nin, T, len(params), nPS, N, nS, N + padc, nout, T + padt, init]
             body = [f2h(x) for x in inputs + pmat + states]
             cases.append((name, ' '.join(map(str, hdr)) + ' ' + ' '.join(body)))
@@ -127,8 +137,33 @@ class vlib_lock:
         self.l.__exit__(*a)
 
 
+def huge_c_array(c):
+    """element access at linear indices around 2^27 and at the end of a C-backed array of 2^27 + 4100 elements (1 GB of
+    address space, a handful of pages touched), next to a Go-backed array of the same shape: a nominal array length in the
+    C pointer type, an int32 index or a truncated size only shows beyond such a size"""
+    n_extra = 4100
+    n = (1 << 27) + n_extra
+    probes = [0, (1 << 27) - 1, 1 << 27, (1 << 27) + 1, n - 1]
+    vals = ','.join('%g' % (p % 1000 + 1) for p in probes) + ',777,777'
+    exp = 'c=%s go=%s' % (vals, vals)
+    line = 'HUGEC %d' % n_extra
+    got = run_lines(os.path.join(HARNESS, 'bin', 'arrops'), [line], env=GOENV, timeout=300)[0]
+    c.count(line, nontrivial=True)
+    if got == 'NOMEM':
+        return {'huge_c_array': 'skipped: calloc of 1 GB refused'}
+    if got != exp:
+        c.violation('huge_c_array.json', {'kind': 'c-backed-array-beyond-2^27-elements', 'elements': n, 'probed_linear_indices': probes,
+                                          'implementation': got[:400], 'expected': exp, 'case_line': line,
+                                          'replay': "echo '%s' | /verif/harness/bin/arrops" % line})
+    return {'huge_c_array': {'elements': n, 'probed_linear_indices': probes, 'agrees_with_go_backed': got == exp}}
+
+
 def extra(c):
-    return entry_point_cases(c, c.rng, c.tier == 'quick')
+    d = entry_point_cases(c, c.rng, c.tier == 'quick')
+    d.update(huge_c_array(c))
+    import cabi_sessions
+    d.update(cabi_sessions.cabi_sessions(c))
+    return d
 
 
 arrays_check.run('C03', 'all',
